@@ -66,7 +66,7 @@ def is_try(e):
     """`x?` desugars to match Try::branch(x) { Break(r) => return from_residual(r), Continue(v) => v }.
     Returns x or None."""
     e = strip(e)
-    if e and e.get("k") == "match" and e["src"].startswith("TryDesugar"):
+    if e and e.get("k") == "match" and e.get("src", "").startswith("TryDesugar"):
         sc = strip(e["scrut"])
         if sc.get("k") == "call" and strip(sc["f"]).get("path") == "core::ops::try_trait::Try::branch":
             return sc["args"][0]
